@@ -104,7 +104,11 @@ class Recorder:
 
     def nontrivial(self, sig):
         if len(self.sigs) < self.MAX_SIGS:
-            self.sigs.add(h64(sig))
+            try:
+                self.sigs.add(h64(sig))
+            except RecursionError:
+                # repr() of a very deeply nested signature
+                self.sigs.add(h64(('deep-signature', self.evaluations)))
 
     def count(self, name, n=1):
         self.counters[name] = self.counters.get(name, 0) + n
